@@ -15,6 +15,11 @@ Proof. exact choose_with_ok. Qed.
 Theorem C13_pick_spec : forall m p pick, pick_ok m p pick = true -> PickSpec m p pick.
 Proof. exact pick_ok_spec. Qed.
 
+(* and conversely, for a connected peer, every pick the statement allows is accepted by the boolean relation: pick_ok
+   is exactly the statement, not something stricter *)
+Theorem C13_spec_pick : forall m a p pick, In (a, p) (m_peers m) -> PickSpec m p pick -> pick_ok m p pick = true.
+Proof. exact pick_spec_ok. Qed.
+
 (* the set the correspondence tests membership in contains only picks satisfying the relation *)
 Theorem C13_allowed : forall m p pick, In pick (allowed_picks m p) -> pick_ok m p pick = true.
 Proof. exact allowed_picks_ok. Qed.
@@ -41,3 +46,4 @@ Print Assumptions C13_pick.
 Print Assumptions C13_pick_spec.
 Print Assumptions C13_allowed.
 Print Assumptions C13_allowed_complete.
+Print Assumptions C13_spec_pick.
